@@ -691,7 +691,12 @@ var c05bSecondFieldTypes = []string{"float32", "uint8", "string", "float64", "co
 
 // the number type field a (resp. the alias) had before it was retyped (widening and narrowing changes)
 var c05bOldNumber = map[string]string{"float32": "float64", "float64": "float32", "uint8": "float32", "int32": "float64"}
-var c05bContexts = []string{"direct", "vector", "stream", "fixed-vector", "optional", "vector-in-record-field"}
+var c05bContexts = []string{"direct", "vector", "stream", "fixed-vector", "optional", "vector-in-record-field", "map-value", "map-value-in-record-field"}
+
+// contexts in which the documentation promises that a compatible change of Rec is accepted; in the others (Rec as a map
+// value) the unchanged tree rejects the change (known finding of C06) - IF it is accepted there, every obligation about the
+// emitted code applies all the same: an accepted change must come with a conversion
+const c05bDocumentedContexts = 6
 
 func c05bLeaf(b *mb, name string) dsl.Type {
 	if strings.HasSuffix(name, "*2") {
@@ -737,8 +742,13 @@ func c05bModel(file string, current bool, fam, kind, ctx int, p1, p2 string) *ds
 		t = b.fvec(b.st("Rec"), 3)
 	case 4:
 		t = b.opt(b.st("Rec"))
-	default:
+	case 5:
 		defs = append(defs, b.record(NS, "Outer", nil, b.field("n", b.st("string")), b.field("r", b.vec(b.st("Rec")))))
+		t = b.st("Outer")
+	case 6:
+		t = b.mapOf(b.st("string"), b.st("Rec"))
+	default:
+		defs = append(defs, b.record(NS, "Outer", nil, b.field("n", b.st("string")), b.field("r", b.mapOf(b.st("uint32"), b.st("Rec")))))
 		t = b.st("Outer")
 	}
 	return &dsl.Namespace{Name: NS, IsTopLevel: true, TypeDefinitions: defs,
@@ -796,9 +806,12 @@ func C05BulkBypass(m, nctx, nb, mode int) {
 	var everr error
 	msg, panicked := verifPanics(func() { _, _, everr = dsl.ValidateEvolution(cur, olds, labels) })
 	verifOut("panic", msg)
-	verifAssert("documented-compatible-changes-accepted", !panicked && everr == nil)
+	if ctx < c05bDocumentedContexts || panicked {
+		verifAssert("documented-compatible-changes-accepted", !panicked && everr == nil)
+	}
 	if panicked || everr != nil {
 		verifOut("err", errText(everr))
+		verifReach("c05b-change-rejected")
 		return
 	}
 	var w *c05bWorld
